@@ -324,3 +324,67 @@ Proof.
   - exists n. reflexivity.
   - destruct (find_child x (n_kids n)) as [k|]; [|discriminate]. apply (IH r k m H).
 Qed.
+
+(* ---- add_graph_exit with the flame graph's adjust_fg_time callback (any sample time) ---- *)
+Lemma adjust_child_stat_other : forall sel a b m r, (forall k, sel (adjust_child a b k) = sel k) ->
+  stat sel r (adjust_child a b m) = stat sel r m.
+Proof. intros sel a b [i nm c t ct ks] [|y r] H; unfold stat; simpl; [apply (H (Node i nm c t ct ks))|]. destruct (find_child y ks); reflexivity. Qed.
+Lemma adjust_child_stat_ctime : forall a b m r,
+  stat n_ctime r (adjust_child a b m) = (if path_eqb r [] then add64 (sub64 (stat n_ctime r m) a) b else stat n_ctime r m).
+Proof. intros a b [i nm c t ct ks] [|y r]; unfold stat; simpl; [reflexivity|]. destruct (find_child y ks); reflexivity. Qed.
+
+Lemma removelast_valid : forall p n m, find_path p n = Some m -> exists m', find_path (removelast p) n = Some m'.
+Proof.
+  intros p n m H. destruct p as [|x p] using rev_ind.
+  - exists n. reflexivity.
+  - rewrite removelast_last. apply (valid_prefix _ _ _ _ H).
+Qed.
+
+(* a statistic the adjustment does not touch (calls, time, validity) *)
+Lemma g_exit_stat : forall sample sel (h : N -> N) p a b g m q, kids_indep sel ->
+  (forall r k, stat sel r (add_times a b k) = (if path_eqb r [] then h (stat sel r k) else stat sel r k)) ->
+  (forall x y k, sel (adjust_child x y k) = sel k) ->
+  find_path p (g_root g) = Some m ->
+  stat sel q (g_root (g_exit sample p a b g)) = (if path_eqb q p then h (stat sel q (g_root g)) else stat sel q (g_root g)).
+Proof.
+  intros sample sel h p a b g m q Hsel Hh Hadj Hp.
+  pose proof (g_exit0_stat sel h p a b g m q Hsel Hh Hp) as E0. unfold g_exit in *. simpl in *.
+  destruct (sample =? 0); [exact E0|]. destruct p as [|x p']; [exact E0|].
+  set (p := x :: p') in *.
+  set (r1 := upd_path p (add_times a b) (g_root g)) in *.
+  destruct (removelast_valid p _ _ Hp) as [m0 Hm0].
+  assert (V1 : exists m1, find_path (removelast p) r1 = Some m1).
+  { apply valid_at_1. unfold valid_at, r1.
+    rewrite (stat_upd_path (fun _ => 1) _ (fun _ v => v) kids_indep_one (add_times_name a b) p _ (removelast p) m Hp).
+    - destruct (strip_prefix p (removelast p)); apply valid_at_1; exists m0; exact Hm0.
+    - intros r. apply add_times_stat_other. reflexivity. }
+  destruct V1 as [m1 Hm1].
+  rewrite (stat_upd_path sel _ (fun _ v => v) Hsel (adjust_child_name _ _) (removelast p) r1 q m1 Hm1).
+  - destruct (strip_prefix (removelast p) q); exact E0.
+  - intros r. apply adjust_child_stat_other. apply Hadj.
+Qed.
+Lemma g_exit_time : forall sample p a b g m q, find_path p (g_root g) = Some m ->
+  time_at q (g_root (g_exit sample p a b g)) = (if path_eqb q p then add64 (time_at q (g_root g)) a else time_at q (g_root g)).
+Proof.
+  intros. unfold time_at. apply (g_exit_stat sample n_time (fun v => add64 v a) p a b g m q kids_indep_time); try assumption.
+  - intros r k. apply add_times_stat_time.
+  - intros x y [i nm c t ct ks]. reflexivity.
+Qed.
+Lemma g_exit_calls : forall sample p a b g m q, find_path p (g_root g) = Some m ->
+  calls_at q (g_root (g_exit sample p a b g)) = calls_at q (g_root g).
+Proof.
+  intros. unfold calls_at.
+  rewrite (g_exit_stat sample n_calls (fun v => v) p a b g m q kids_indep_calls); try assumption.
+  - destruct (path_eqb q p); reflexivity.
+  - intros r k. rewrite add_times_stat_other; [destruct (path_eqb r []); reflexivity|]. intros [i nm c t ct ks]. reflexivity.
+  - intros x y [i nm c t ct ks]. reflexivity.
+Qed.
+Lemma g_exit_valid : forall sample p a b g m q, find_path p (g_root g) = Some m ->
+  valid_at q (g_root (g_exit sample p a b g)) = valid_at q (g_root g).
+Proof.
+  intros. unfold valid_at.
+  rewrite (g_exit_stat sample (fun _ => 1) (fun v => v) p a b g m q kids_indep_one); try assumption.
+  - destruct (path_eqb q p); reflexivity.
+  - intros r k. rewrite add_times_stat_other; [destruct (path_eqb r []); reflexivity|]. reflexivity.
+  - reflexivity.
+Qed.
